@@ -5,6 +5,7 @@
 EXTENDS Rendezvous
 
 SeqsUpTo(S, n) == UNION {[1..k -> S] : k \in 0..n}
+HProgs1 == {<<>>, <<OAcq>>, <<OSync>>, <<ORelPrev>>}   \* a GoingUp handler: ignore / keep a deferral / take and call one / call an earlier one
 SubsetsUpTo(S, n) == {x \in SUBSET S : Cardinality(x) <= n}
 
 \* ---- A: 3 components, plain / chaining / failing callbacks and a sink
@@ -19,8 +20,9 @@ A_Script  == [w \in A_Waiters |->
                   [] w = "s1" -> SNone]
 A_Handles == [w \in A_Waiters |-> IF w = "s1" THEN {"a", "b"} ELSE {}]   \* b raises no events
 A_DepSets == SUBSET A_Comps
-A_HSeqs   == {<<>>, <<"hold">>}
-A_UpRegs  == {"none"}
+A_HSeqs   == {<<>>, << <<OAcq>> >>}
+A_CR      == NoCR
+A_UpProgs == {<<>>}
 
 \* ---- QA / QB: the quick-tier cuts of A and B (fewer waiters / dependency sets)
 QA_Comps   == A_Comps
@@ -31,7 +33,8 @@ QA_Script  == [w \in QA_Waiters |-> A_Script[w]]
 QA_Handles == [w \in QA_Waiters |-> A_Handles[w]]
 QA_DepSets == {{}, {"a"}, {"b"}, {"a", "b"}, {"b", "c"}}
 QA_HSeqs   == {<<>>}
-QA_UpRegs  == {"none"}
+QA_CR      == NoCR
+QA_UpProgs == {<<>>}
 
 \* ---- B: register-then-fail, a callback that declares another waiter, a
 \*         sink with two handled components whose _all_dependencies_met registers
@@ -46,8 +49,9 @@ B_Script  == [w \in B_Waiters |->
                   [] w = "s1" -> SReg("c")]
 B_Handles == [w \in B_Waiters |-> IF w = "s1" THEN {"a", "b"} ELSE {}]
 B_DepSets == SUBSET B_Comps
-B_HSeqs   == {<<>>, <<"sync">>}
-B_UpRegs  == {"none"}
+B_HSeqs   == {<<>>, << <<OSync>> >>}
+B_CR      == NoCR
+B_UpProgs == {<<>>}
 
 QB_Comps   == B_Comps
 QB_Sources == B_Sources
@@ -57,7 +61,8 @@ QB_Script  == B_Script
 QB_Handles == B_Handles
 QB_DepSets == {{}, {"a"}, {"c"}, {"a", "b"}}
 QB_HSeqs   == {<<>>}
-QB_UpRegs  == {"none"}
+QB_CR      == NoCR
+QB_UpProgs == {<<>>}
 
 \* ---- L: lifecycle: every GoingUp handler script up to 2 (3) handlers, the
 \*         Up handler registering a component, few waiters
@@ -68,9 +73,42 @@ L_Kind    == [w \in L_Waiters |-> IF w = "s1" THEN "sink" ELSE "cb"]
 L_Script  == [w \in L_Waiters |-> SNone]
 L_Handles == [w \in L_Waiters |-> IF w = "s1" THEN {"a"} ELSE {}]
 L_DepSets == SUBSET L_Comps
-L_HSeqs2  == SeqsUpTo(HandlerKinds, 2)
-L_HSeqs3  == SeqsUpTo(HandlerKinds, 3)
-L_UpRegs  == {"none", "b"}
+L_HSeqs2  == SeqsUpTo(HProgs1, 2)
+L_HSeqs3  == SeqsUpTo(HProgs1, 3)
+L_CR      == NoCR
+L_UpProgs == {<<>>, <<OReg("b")>>}
+
+\* ---- R: re-entrancy: handlers of GoingUp / Up / ComponentRegistered and waiter
+\*         callbacks that take, keep and call deferrals, register components
+\*         and declare waiters while core is in the middle of goUp / register;
+\*         an Up handler that raises
+R_Comps   == {"a", "b"}
+R_Sources == {"a"}
+R_Waiters == {"w1", "w2", "s1"}
+R_Kind    == [w \in R_Waiters |-> IF w = "s1" THEN "sink" ELSE "cb"]
+R_Script  == [w \in R_Waiters |->
+                CASE w = "w1" -> <<OSync>>
+                  [] w = "w2" -> <<OAcq>>
+                  [] w = "s1" -> <<OSync, OReg("b")>>]
+R_Handles == [w \in R_Waiters |-> IF w = "s1" THEN {"a"} ELSE {}]
+R_DepSets == {{}, {"a"}, {"b"}}
+R_CR      == [on |-> "a", p |-> <<OSync, OCwr("w1", {"b"})>>]
+R_HSeqs   == {<<>>, << <<OReg("a")>> >>, << <<OAcq>>, <<OCwr("w2", {})>> >>,
+              << <<OSync, OReg("b")>>, <<ORelPrev>> >>}
+R_UpProgs == {<<>>, <<OSync>>, <<OAcq>>, <<OSync, OReg("a")>>, <<OCwr("w2", {"b"}), OSync>>,
+              <<ORaise>>, <<OReg("a"), ORaise>>}
+
+\* ---- RQ: the quick-tier cut of R
+RQ_Comps   == R_Comps
+RQ_Sources == R_Sources
+RQ_Waiters == R_Waiters
+RQ_Kind    == R_Kind
+RQ_Script  == R_Script
+RQ_Handles == R_Handles
+RQ_DepSets == {{}, {"a"}}
+RQ_CR      == R_CR
+RQ_HSeqs   == R_HSeqs
+RQ_UpProgs == R_UpProgs
 
 \* ---- C: 4 components, 4 waiters (thorough), rendezvous only
 C_Comps   == {"a", "b", "c", "d"}
@@ -85,7 +123,8 @@ C_Script  == [w \in C_Waiters |->
 C_Handles == [w \in C_Waiters |-> IF w = "s1" THEN {"a", "d"} ELSE {}]
 C_DepSets == {{}, {"a"}, {"b"}, {"d"}, {"a", "b"}, {"c", "d"}}
 C_HSeqs   == {<<>>}
-C_UpRegs  == {"none", "c"}
+C_CR      == [on |-> "a", p |-> <<OReg("b")>>]
+C_UpProgs == {<<>>, <<OReg("c")>>}
 
 \* ---- T: 5 components, 5 waiters: simulation and trace validation
 T_Comps   == {"a", "b", "c", "d", "e"}
@@ -93,15 +132,16 @@ T_Sources == {"a", "b", "c", "e"}
 T_Waiters == {"w1", "w2", "w3", "s1", "s2"}
 T_Kind    == [w \in T_Waiters |-> IF w \in {"s1", "s2"} THEN "sink" ELSE "cb"]
 T_Script  == [w \in T_Waiters |->
-                CASE w = "w1" -> SNone
-                  [] w = "w2" -> SReg("d")
+                CASE w = "w1" -> <<OSync>>
+                  [] w = "w2" -> <<OReg("d"), OAcq>>
                   [] w = "w3" -> SRegThrow("e")
                   [] w = "s1" -> SNone
-                  [] w = "s2" -> SReg("b")]
+                  [] w = "s2" -> <<OSync, OReg("b")>>]
 T_Handles == [w \in T_Waiters |-> CASE w = "s1" -> {"a", "b"} [] w = "s2" -> {"c"} [] OTHER -> {}]
 T_DepSets == SUBSET T_Comps
-T_HSeqs   == SeqsUpTo(HandlerKinds, 2)
-T_UpRegs  == {"none", "a", "e"}
+T_HSeqs   == SeqsUpTo(HProgs1 \cup {<<OReg("a")>>, <<OSync, OReg("b")>>}, 2)
+T_CR      == [on |-> "c", p |-> <<OSync, OReg("a")>>]
+T_UpProgs == {<<>>, <<OReg("a")>>, <<OSync>>, <<OAcq>>, <<OSync, OReg("e")>>, <<OReg("e"), ORaise>>}
 
 \* ---- U: 5 components, 5 waiters, callbacks declaring further waiters
 U_Comps   == {"a", "b", "c", "d", "e"}
@@ -111,13 +151,14 @@ U_Kind    == [w \in U_Waiters |-> IF w = "s1" THEN "sink" ELSE "cb"]
 U_Script  == [w \in U_Waiters |->
                 CASE w = "w1" -> SCwr("w2", {"a", "e"})
                   [] w = "w2" -> SReg("c")
-                  [] w = "w3" -> SThrow
+                  [] w = "w3" -> <<OAcq, ORaise>>
                   [] w = "w4" -> SCwr("w3", {})
                   [] w = "s1" -> SReg("e")]
 U_Handles == [w \in U_Waiters |-> IF w = "s1" THEN {"b", "d"} ELSE {}]
 U_DepSets == SUBSET U_Comps
-U_HSeqs   == {<<>>, <<"hold">>, <<"sync", "hold">>}
-U_UpRegs  == {"none", "d"}
+U_HSeqs   == {<<>>, << <<OAcq>> >>, << <<OSync>>, <<OAcq, OCwr("w3", {"a"})>> >>}
+U_CR      == [on |-> "b", p |-> <<OAcq, ORaise>>]
+U_UpProgs == {<<>>, <<OReg("d")>>, <<OAcq, OSync>>, <<ORaise>>}
 
 ASSUME PrintT(<<"CAT", ToJson(Catalog)>>)
 ====
